@@ -199,6 +199,11 @@ func (qr *queryRequest) executeCallback(cb func(QueryRequest)) {
 
 		var str string
 
+		// A nil *Error carries no error to send; handle it as any other value
+		if e, ok := v.(*Error); ok && e == nil {
+			v = "nil *res.Error"
+		}
+
 		switch e := v.(type) {
 		case *Error:
 			if !qr.replied {
